@@ -65,22 +65,18 @@ Proof. exact waiting_implies_runnable. Qed.
 Print Assumptions C16_waiting_implies_runnable.
 
 (* The receiver's side of "reports closure consistently to both sides" as absence of the dual
-   bad quiescent state (nothing runnable, receiver parked, and an item is buffered or every
-   sender is gone).  FULL statement: forall tr, reachable ... -> ~ RxStranded s.  FALSE of the
-   code when a sender is closed with close_this_sender / Sink::poll_close (refutation below);
-   proved for executions of the same class that contain no CloseSender label. *)
-Theorem C16_no_rx_strand : forall c progs tr s,
-  cap_ok c = true -> single_progs progs = true ->
-  reachable strict (init c progs) tr s -> existsb is_close_sender tr = false -> ~ RxStranded s.
-Proof. exact no_rx_strand. Qed.
+   bad state -- the FULL statement, every policy, every program, all label sequences: the
+   receiver is never parked (alive, not done, not runnable) while an item is buffered or every
+   sender is gone.
+   History: before /repo commit fdb5498e919 close_this_sender (Sink::poll_close) dropped the weak
+   count without waking the receiver and this was false; the witness (Chan/PMpscRefute.v
+   no_rx_strand_refuted over ModelMpscOld.step_old) was
+     w4: cap 1, progs [[1]], Poll 0; PollRx; PollRx; CloseSender 0
+   It stays in corpus/C16 and must not strand any more. *)
+Theorem C16_no_rx_strand : forall p c progs tr s,
+  reachable p (init c progs) tr s -> ~ RxStranded s.
+Proof. exact no_rx_strand_all. Qed.
 Print Assumptions C16_no_rx_strand.
-
-(* finding (still present): close_this_sender of the last sender does not wake the parked receiver *)
-Theorem C16_no_rx_strand_refuted :
-  exists s, single_progs w4_progs = true /\
-            reachable strict (init (Some 1) w4_progs) w4_trace s /\ RxStranded s.
-Proof. exact no_rx_strand_refuted. Qed.
-Print Assumptions C16_no_rx_strand_refuted.
 
 (* ------------------------------------------------------------------ non-vacuity *)
 
@@ -133,4 +129,10 @@ Example C16_holds_b_flags_strand :
     [OPoll [SSent] true []; OPoll [SFull] false []; OPoll [SFull; SFull] false [];
      ORecv (RSome 9%N) [WSend 2]; OPoll [SSent; SFull] false []; ORecv (RSome 1%N) [WSend 2];
      OPoll [SSent] true []; ORecv (RSome 2%N) [WSend 2]; ORecv RPending []] = 16%N.
+Proof. vm_compute. reflexivity. Qed.
+
+(* the former witness 4: close_this_sender now wakes the parked receiver *)
+Example C16_former_witness4_ok :
+  option_map (fun s => (rx_stranded_b s, rx_woken s))
+    (run_enabled strict (init (Some 1) w4_progs) w4_trace) = Some (false, true).
 Proof. vm_compute. reflexivity. Qed.
